@@ -6,7 +6,7 @@ import StamModel.Lemmas.StoreIds
 namespace Stam
 
 theorem Sub.of_anns_eq {s s' : State} (h : s'.anns = s.anns) : Sub s s' := by
-  intro x a hx; rw [h] at hx; exact ⟨a, hx, fun _ hk => hk⟩
+  intro x a hx; rw [h] at hx; exact ⟨a, hx, rfl, rfl, fun _ hk => hk⟩
 
 theorem rmAnn_sub (s : State) (r : Ref) (hi : Inv s) : Sub s (s.rmAnn r).2 := by
   unfold State.rmAnn
